@@ -24,18 +24,20 @@ pub enum Place {
     Field(Box<Place>, String, Ty),
     /// base, index term, element type, panic site
     Index(Box<Place>, String, Ty, String),
+    /// value of a map entry: base (the map), key term, value type, panic site
+    MapEntry(Box<Place>, String, Ty, String),
 }
 
 impl Place {
     pub fn root(&self) -> String {
         match self {
             Place::Var(n, _) => n.clone(),
-            Place::Field(b, _, _) | Place::Index(b, _, _, _) => b.root(),
+            Place::Field(b, _, _) | Place::Index(b, _, _, _) | Place::MapEntry(b, _, _, _) => b.root(),
         }
     }
     pub fn ty(&self) -> Ty {
         match self {
-            Place::Var(_, t) | Place::Field(_, _, t) | Place::Index(_, _, t, _) => t.clone(),
+            Place::Var(_, t) | Place::Field(_, _, t) | Place::Index(_, _, t, _) | Place::MapEntry(_, _, t, _) => t.clone(),
         }
     }
 }
@@ -68,6 +70,8 @@ pub struct Cx<'g> {
     fuel_next: usize,
     /// length of the array type a `let` annotation asks for (const-generic argument of the initialiser call)
     pub array_len_hint: Option<String>,
+    /// `Result` fn with `&mut` state: `Err` carries the current state
+    pub err_state: bool,
     /// aliases to install in the next block scope (loop variable of `for x in v.iter_mut()`)
     pending_aliases: Vec<(String, Place)>,
 }
@@ -101,6 +105,7 @@ impl<'g> Cx<'g> {
             fuels: Vec::new(),
             fuel_next: 0,
             array_len_hint: None,
+            err_state: false,
             pending_aliases: Vec::new(),
         }
     }
@@ -266,6 +271,53 @@ impl<'g> Cx<'g> {
     }
 
     /// payload of a normal / early return: `v` or `(self, v)`
+    /// the tuple of `&mut` state (`self`, then the `&mut` parameters), with the given roots replaced by terms
+    pub fn state_tuple(&self, roots: &std::collections::BTreeMap<String, String>) -> String {
+        let mut comps: Vec<String> = Vec::new();
+        if self.self_mode == SelfMode::Mut {
+            comps.push(roots.get("self").cloned().unwrap_or_else(|| "self".to_string()));
+        }
+        for p in &self.mut_params {
+            comps.push(roots.get(p).cloned().unwrap_or_else(|| lean_ident(p)));
+        }
+        match comps.len() {
+            0 => "()".to_string(),
+            1 => comps.pop().unwrap(),
+            _ => format!("({})", comps.join(", ")),
+        }
+    }
+
+    /// pure read of a place (no bounds checks: only variables and fields), roots substituted
+    fn pure_read(&self, p: &Place, roots: &std::collections::BTreeMap<String, String>) -> Option<String> {
+        match p {
+            Place::Var(n, _) => Some(roots.get(n).cloned().unwrap_or_else(|| lean_ident(n))),
+            Place::Field(b, f, _) => Some(format!("{}.{}", self.pure_read(b, roots)?, lean_ident(f))),
+            Place::Index(_, _, _, _) | Place::MapEntry(_, _, _, _) => None,
+        }
+    }
+
+    /// record in `roots` the pure update "place := v" (used to describe the caller's state on a callee's `Err`)
+    pub fn pure_update(&self, p: &Place, v: String, roots: &mut std::collections::BTreeMap<String, String>) -> bool {
+        match p {
+            Place::Var(n, _) => {
+                roots.insert(n.clone(), v);
+                true
+            }
+            Place::Field(b, f, _) => match self.pure_read(b, roots) {
+                Some(bt) => self.pure_update(b, format!("{{ {} with {} := {} }}", bt, lean_ident(f), v), roots),
+                None => false,
+            },
+            Place::Index(b, i, _, _) => match self.pure_read(b, roots) {
+                Some(bt) => self.pure_update(b, format!("(List.set {} {} {})", bt, i, v), roots),
+                None => false,
+            },
+            Place::MapEntry(b, k, _, _) => match self.pure_read(b, roots) {
+                Some(bt) => self.pure_update(b, format!("(RustSem.Map.insert {} {} {})", bt, k, v), roots),
+                None => false,
+            },
+        }
+    }
+
     pub fn payload_pub(&self, v: &str) -> String {
         self.payload(v)
     }
@@ -325,14 +377,13 @@ impl<'g> Cx<'g> {
                         return Ok(wrap(self, &v));
                     }
                     if segs.len() == 1 && segs[0] == "Err" && c.args.len() == 1 {
-                        if self.self_mode == SelfMode::Mut && self.self_dirty {
-                            return self.bail(
-                                e.span(),
-                                "`Err` return after a mutation of `self` in a `&mut self` method (the error outcome carries no state)",
-                            );
-                        }
                         let et = self.err.clone().unwrap();
                         let (v, _) = self.expr(&c.args[0], Some(&et), stmts)?;
+                        if self.err_state {
+                            // the error carries the state the `&mut` references are left in
+                            let st = self.state_tuple(&std::collections::BTreeMap::new());
+                            return Ok(Doc::atom(format!("Exec.err ({}, {})", v, st)));
+                        }
                         return Ok(Doc::atom(format!("Exec.err {}", v)));
                     }
                 }
@@ -357,9 +408,6 @@ impl<'g> Cx<'g> {
 
     fn result_tail_call(&mut self, e: &syn::Expr, stmts: &mut Vec<Stmt>) -> R<Doc> {
         // `fn f(..) -> Result<..> { g(..) }` is `Ok(g(..)?)` when the error types agree (checked by the `?` path)
-        if self.self_mode == SelfMode::Mut && self.self_dirty {
-            return self.bail(e.span(), "tail call of a `Result` fn after a mutation of `self` is not supported");
-        }
         let (v, _) = self.try_call(e, e.span(), false, stmts)?;
         let p = self.payload_pub(&v);
         Ok(Doc::atom(format!("pure {}", p)))
@@ -394,6 +442,15 @@ impl<'g> Cx<'g> {
             match st {
                 syn::Stmt::Local(l) => self.local(l, &mut stmts)?,
                 syn::Stmt::Item(syn::Item::Use(u)) => self.use_item(u)?,
+                syn::Stmt::Item(syn::Item::Const(c)) => {
+                    // a `const` nested in a block: a `let` whose initialiser is a constant expression
+                    let names: Vec<String> = self.g.structs.keys().chain(self.g.enums.keys()).cloned().collect();
+                    let ty = crate::globals::conv_ty(&self.file, &c.ty, self.self_ty.as_deref(), &names)?;
+                    let (v, _) = self.expr(&c.expr, Some(&ty), &mut stmts)?;
+                    let name = c.ident.to_string();
+                    stmts.push(Stmt::Let(lean_ident(&name), v));
+                    self.declare(&name, ty);
+                }
                 syn::Stmt::Item(it) => return self.bail(it.span(), "nested item is not supported"),
                 syn::Stmt::Macro(m) => {
                     if let Some(d) = self.stmt_macro(&m.mac, &mut stmts)? {
@@ -537,6 +594,59 @@ impl<'g> Cx<'g> {
                 if let Ok((lt, _)) = self.expr(&a.len, Some(&Ty::usize()), &mut tmp) {
                     if tmp.is_empty() {
                         hint = Some(lt);
+                    }
+                }
+            }
+        }
+        // `let x = map.entry(k).or_insert_with(|| e);` / `.or_insert(e)` : `x` is an alias of the map entry
+        if let syn::Expr::MethodCall(oi) = &**init {
+            let oname = oi.method.to_string();
+            if (oname == "or_insert_with" || oname == "or_insert") && oi.args.len() == 1 {
+                if let syn::Expr::MethodCall(en) = &*oi.receiver {
+                    if en.method == "entry" && en.args.len() == 1 {
+                        let name = match pat {
+                            syn::Pat::Ident(pi) if pi.subpat.is_none() && pi.by_ref.is_none() => pi.ident.to_string(),
+                            other => return self.bail(other.span(), "`let <pattern> = map.entry(..)…` needs a plain variable"),
+                        };
+                        self.check_local_name(&name, pat.span())?;
+                        let base = self.place(&en.receiver, stmts)?;
+                        let (kt, vt) = match base.ty() {
+                            Ty::Map(k, v, _) => (*k, *v),
+                            _ => return self.bail(en.receiver.span(), "`entry` on a value that is not a map"),
+                        };
+                        let (k, _) = self.expr(&en.args[0], Some(&kt), stmts)?;
+                        let cur = self.read(&base, stmts)?;
+                        // the default is only evaluated when the key is absent
+                        let dflt_expr: &syn::Expr = if oname == "or_insert_with" {
+                            match &oi.args[0] {
+                                syn::Expr::Closure(c) if c.inputs.is_empty() => &c.body,
+                                o => return self.bail(o.span(), "`or_insert_with` needs a closure `|| expr`"),
+                            }
+                        } else {
+                            &oi.args[0]
+                        };
+                        let t = self.fresh();
+                        if oname == "or_insert" {
+                            // eager argument
+                            let (d, _) = self.expr(dflt_expr, Some(&vt), stmts)?;
+                            stmts.push(Stmt::Let(
+                                t.clone(),
+                                format!("(if RustSem.Map.contains_key {} {} then {} else RustSem.Map.insert {} {} {})", cur, k, cur, cur, k, d),
+                            ));
+                        } else {
+                            let mut ds: Vec<Stmt> = Vec::new();
+                            let (d, _) = self.expr(dflt_expr, Some(&vt), &mut ds)?;
+                            let ins = Doc::seq(ds, Doc::atom(format!("pure (RustSem.Map.insert {} {} {})", cur, k, d)));
+                            stmts.push(Stmt::Bind(
+                                t.clone(),
+                                Doc::If(format!("RustSem.Map.contains_key {} {}", cur, k), Box::new(Doc::atom(format!("pure {}", cur))), Box::new(ins)),
+                            ));
+                        }
+                        self.write(&base, t, stmts)?;
+                        let site = self.site(&**init);
+                        self.declare(&name, vt.clone());
+                        self.aliases.last_mut().unwrap().push((name, Place::MapEntry(Box::new(base), k, vt, site)));
+                        return Ok(());
                     }
                 }
             }
@@ -983,7 +1093,15 @@ impl<'g> Cx<'g> {
                 let (l, lt) = self.expr(inner, None, stmts)?;
                 let et = match lt {
                     Ty::List(e, _) => *e,
-                    _ => return self.bail(other.span(), "unsupported `for` iterator (ranges, lists, `.iter()`, `.iter().enumerate()` only)"),
+                    // a BTreeMap iterates in key order = the order of the model's association list
+                    Ty::Map(k, v, false) => Ty::Tuple(vec![*k, *v]),
+                    Ty::Map(_, _, true) => {
+                        return self.bail(
+                            other.span(),
+                            "iteration over a `HashMap` is rejected: the model is key-sorted and the iteration order of a HashMap is unspecified",
+                        )
+                    }
+                    _ => return self.bail(other.span(), "unsupported `for` iterator (ranges, lists, BTreeMaps, `.iter()`, `.iter().enumerate()` only)"),
                 };
                 let (l, et) = if enumerate { (format!("(RustSem.enumerate {})", l), Ty::Tuple(vec![Ty::usize(), et])) } else { (l, et) };
                 let (lv, binds) = if var == "(tuple)" {
@@ -1097,6 +1215,12 @@ impl<'g> Cx<'g> {
                 stmts.push(Stmt::Bind(t.clone(), Doc::atom(format!("RustSem.index {} {} {}", bt, i, site))));
                 Ok(t)
             }
+            Place::MapEntry(b, k, _, site) => {
+                let bt = self.read(b, stmts)?;
+                let t = self.fresh();
+                stmts.push(Stmt::Bind(t.clone(), Doc::atom(format!("RustSem.Map.index {} {} {}", bt, k, site))));
+                Ok(t)
+            }
         }
     }
 
@@ -1121,6 +1245,10 @@ impl<'g> Cx<'g> {
                 let t = self.fresh();
                 stmts.push(Stmt::Bind(t.clone(), Doc::atom(format!("RustSem.set {} {} {} {}", bt, i, v, site))));
                 self.write(b, t, stmts)
+            }
+            Place::MapEntry(b, k, _, _) => {
+                let bt = self.read(b, stmts)?;
+                self.write(b, format!("(RustSem.Map.insert {} {} {})", bt, k, v), stmts)
             }
         }
     }
@@ -1179,6 +1307,23 @@ impl<'g> Cx<'g> {
             return self.write(&place, t, stmts);
         }
         let place = self.place(recv, stmts)?;
+        if let Ty::Map(kt, vt, _) = place.ty() {
+            let cur = self.read(&place, stmts)?;
+            let new = match (name.as_str(), args.len()) {
+                ("insert", 2) => {
+                    let (k, _) = self.expr(args[0], Some(&kt), stmts)?;
+                    let (v, _) = self.expr(args[1], Some(&vt), stmts)?;
+                    format!("(RustSem.Map.insert {} {} {})", cur, k, v)
+                }
+                ("remove", 1) => {
+                    let (k, _) = self.expr(args[0], Some(&kt), stmts)?;
+                    format!("(RustSem.Map.remove {} {})", cur, k)
+                }
+                ("clear", 0) => "[]".to_string(),
+                _ => return self.bail(mc.span(), format!("unsupported call of `{}` on a map", name)),
+            };
+            return self.write(&place, new, stmts);
+        }
         let (et, kind) = match place.ty() {
             Ty::List(t, k) => (*t, k),
             _ => return self.bail(recv.span(), format!("`{}` on a value that is not a Vec", name)),
